@@ -241,4 +241,167 @@ theorem hcomb (a b pre cur new : List Nat) (k r : Nat) (ha : Limbs a) (hb : Limb
     simp only [val_append, List.length_append, h2, pow_add]
     ring
 
+
+/-- one step of a tall region: mpn_add_n of the next chunk's MP (lower rows, operand advanced) is exact, carry 0 -/
+theorem vcomb (a lo hi rp temp : List Nat) (rn : Nat) (ha : Limbs a) (hlo : Limbs lo) (hhi : Limbs hi)
+    (hB : lo.length + hi.length ≤ B)
+    (hrv : val rp = mpW rn a hi) (hrl : Limbs rp) (hrn : rp.length = rn + 2)
+    (htv : val temp = mpW rn (a.drop hi.length) lo) (htl : Limbs temp) (htn : temp.length = rn + 2) :
+    val (add_n rp temp).1 = mpW rn a (lo ++ hi) ∧ Limbs (add_n rp temp).1 ∧ (add_n rp temp).1.length = rn + 2 := by
+  obtain ⟨av, _, al, an⟩ := addNC_val rp temp 0 hrl htl (by omega) (by omega)
+  have hlt := mpW_lt rn a (lo ++ hi) ha (Limbs_append.mpr ⟨hlo, hhi⟩) (by simpa using hB)
+  have hs := mpW_vsplit rn a hi lo
+  rw [hrn] at av an
+  have hc : (addNC rp temp 0).2 = 0 := by
+    apply eq_zero_of_mul_lt (B ^ (rn + 2)) _ _ _ hlt
+    rw [hs, ← hrv, ← htv]; omega
+  rw [hc] at av
+  refine ⟨?_, al, an⟩
+  show val (addNC rp temp 0).1 = _
+  rw [hs, ← hrv, ← htv]; omega
+
+/-! ### the chunk loops -/
+
+theorem win_append_drop (b : List Nat) (bn c : Nat) (h : c ≤ bn) : win b (bn - c) c ++ b.drop bn = b.drop (bn - c) := by
+  have : b.drop bn = (b.drop (bn - c)).drop c := by rw [List.drop_drop]; congr 1; omega
+  rw [this, win, List.take_append_drop]
+
+/-- result {rp, rn+2} is MP of rn diagonals -/
+def IsMP (r : List Nat) (rn : Nat) (a b : List Nat) : Prop := val r = mpW rn a b ∧ Limbs r ∧ r.length = rn + 2
+
+/-- the tall loops: invariant rp = MP(a0, rows bn.. of b), ap + c = a0 + (|b| - bn) -/
+theorem vloop_spec (f : List Nat → List Nat → List Nat) (c rn : Nat) (a0 b : List Nat) (ha0 : Limbs a0) (hb : Limbs b)
+    (hB : b.length ≤ B) (hal : rn + b.length - 1 ≤ a0.length)
+    (hf : ∀ a' bc, Limbs a' → Limbs bc → bc.length = c → rn + c - 1 ≤ a'.length → IsMP (f a' bc) rn a' bc) :
+    ∀ (bn : Nat) (a rp : List Nat), bn ≤ b.length → a.drop c = a0.drop (b.length - bn) → IsMP rp rn a0 (b.drop bn) →
+      (vloop f c a b bn rp).2.2 ≤ bn ∧ ((vloop f c a b bn rp).2.2 < c ∨ c = 0) ∧
+      (vloop f c a b bn rp).2.1.drop c = a0.drop (b.length - (vloop f c a b bn rp).2.2) ∧
+      IsMP (vloop f c a b bn rp).1 rn a0 (b.drop (vloop f c a b bn rp).2.2) := by
+  intro bn
+  induction bn using Nat.strong_induction_on with
+  | _ bn ih =>
+    intro a rp hbn hap hrp
+    rw [vloop]
+    split
+    · rename_i h
+      obtain ⟨hc0, hcb⟩ := h
+      dsimp only
+      have hbcl : (win b (bn - c) c).length = c := win_length b _ _ (by omega)
+      have ha' : Limbs (a.drop c) := by rw [hap]; exact Limbs_drop ha0 _
+      have hfs := hf (a.drop c) (win b (bn - c) c) ha' (win_limbs hb _ _) hbcl
+        (by rw [hap, List.length_drop]; omega)
+      obtain ⟨tv, tl, tn⟩ := hfs
+      obtain ⟨rv, rl, rn'⟩ := hrp
+      have hdl : (b.drop bn).length = b.length - bn := List.length_drop
+      have hcomb := vcomb a0 (win b (bn - c) c) (b.drop bn) rp (f (a.drop c) (win b (bn - c) c)) rn ha0
+        (win_limbs hb _ _) (Limbs_drop hb _) (by rw [hbcl, hdl]; omega) rv rl rn'
+        (by rw [tv, hdl, hap]) tl tn
+      rw [win_append_drop b bn c hcb] at hcomb
+      obtain ⟨i1, i2, i3, i4⟩ := ih (bn - c) (by omega) (a.drop c) _ (by omega)
+        (by rw [hap, List.drop_drop]; congr 1; omega) hcomb
+      exact ⟨by omega, i2, i3, i4⟩
+    · rename_i h
+      refine ⟨le_refl _, ?_, hap, hrp⟩
+      by_cases hc : c = 0
+      · exact Or.inr hc
+      · left; simp only [not_and, not_le] at h; exact h (by omega)
+
+
+/-- invariant of the wide loops, state r = (done, cur, ap, x): x - e diagonals remain beyond the current chunk, `tot` = diagonals
+    before the current chunk + remaining ones (constant), ap = a0 + |done|, done ++ cur = MP of the first |done| + k diagonals -/
+def HInv (k e : Nat) (a0 b : List Nat) (tot : Nat) (r : List Nat × List Nat × List Nat × Nat) : Prop :=
+  e ≤ r.2.2.2 ∧ r.2.2.1 = a0.drop r.1.length ∧ val (r.1 ++ r.2.1) = mpW (r.1.length + k) a0 b ∧
+  Limbs r.1 ∧ Limbs r.2.1 ∧ r.2.1.length = k + 2 ∧ r.1.length + (r.2.2.2 - e) = tot
+
+theorem hloop_spec (f : List Nat → List Nat) (k e : Nat) (a0 b : List Nat) (tot : Nat) (ha0 : Limbs a0) (hb : Limbs b)
+    (hbn : 1 ≤ b.length) (hB : b.length < B) (hk : 0 < k) (hal : tot + k + b.length - 1 ≤ a0.length)
+    (hf : ∀ a', Limbs a' → k + b.length - 1 ≤ a'.length → IsMP (f a') k a' b) :
+    ∀ (x : Nat) (a done cur : List Nat), HInv k e a0 b tot (done, cur, a, x) →
+      HInv k e a0 b tot (hloop f k (k + e) a x done cur) ∧ (hloop f k (k + e) a x done cur).2.2.2 < k + e := by
+  intro x
+  induction x using Nat.strong_induction_on with
+  | _ x ih =>
+    intro a done cur hinv
+    rw [hloop]
+    split
+    · rename_i h
+      obtain ⟨_, hx0, hwx⟩ := h
+      dsimp only
+      obtain ⟨i1, i2, i3, i4, i5, i6, i7⟩ := hinv
+      simp only at i1 i2 i3 i4 i5 i6 i7
+      have ha' : a.drop k = a0.drop (done.length + k) := by rw [i2, List.drop_drop]
+      have hfs := hf (a.drop k) (by rw [ha']; exact Limbs_drop ha0 _) (by rw [ha', List.length_drop]; omega)
+      obtain ⟨nv, nl, nn⟩ := hfs
+      obtain ⟨c1, c2, c3⟩ := hcomb a0 b done cur (f (a.drop k)) k k ha0 hb hbn hB i5 i6 i3 (by rw [nv, ha']) nl nn
+      have h2 := (top2 k cur i6 i5).2.2.2
+      apply ih (x - k) (by omega)
+      refine ⟨?_, ?_, ?_, ?_, c2, c3, ?_⟩
+      · simp only; omega
+      · simp only [List.length_append, h2]; exact ha'
+      · simp only [List.length_append, h2]; rw [← c1, List.append_assoc]
+      · exact Limbs_append.mpr ⟨i4, Limbs_take i5 _⟩
+      · simp only [List.length_append, h2]; omega
+    · rename_i h
+      refine ⟨hinv, ?_⟩
+      simp only [not_and, not_le] at h
+      have := hinv.1
+      simp only at this ⊢
+      by_cases hx : 0 < x
+      · exact h hk hx
+      · omega
+
+/-! ### regions of mulmid.c -/
+
+theorem basecase_isMP (a b : List Nat) (un : Nat) (ha : Limbs a) (hb : Limbs b)
+    (hvn : 1 ≤ b.length) (hun : b.length ≤ un) (hal : un ≤ a.length) (hB : b.length ≤ B) :
+    IsMP (mulmid_basecase a un b) (un - b.length + 1) a b := by
+  cases b with
+  | nil => simp at hvn
+  | cons v0 vs =>
+    simp only [List.length_cons] at *
+    obtain ⟨h1, h2, h3⟩ := basecase_val a un v0 vs ha hb hun hal hB
+    have e : un - (vs.length + 1) + 1 = un - vs.length := by omega
+    rw [e]; exact ⟨h1, h2, by rw [h3]⟩
+
+/-- a tall region of mulmid.c: first chunk (top c rows), the loop, the last chunk of fewer than c rows by `g` -/
+theorem vregion (f : List Nat → List Nat → List Nat) (g : List Nat → Nat → List Nat → List Nat) (c rn : Nat) (a b : List Nat)
+    (ha : Limbs a) (hb : Limbs b) (hB : b.length ≤ B) (hal : rn + b.length - 1 ≤ a.length) (hc : 0 < c) (hcb : c ≤ b.length)
+    (hf : ∀ a' bc, Limbs a' → Limbs bc → bc.length = c → rn + c - 1 ≤ a'.length → IsMP (f a' bc) rn a' bc)
+    (hg : ∀ a' lo, Limbs a' → Limbs lo → 0 < lo.length → lo.length < c → lo.length + c ≤ b.length →
+      rn + lo.length - 1 ≤ a'.length → IsMP (g a' lo.length lo) rn a' lo) :
+    IsMP (if (vloop f c a b (b.length - c) (f a (win b (b.length - c) c))).2.2 ≠ 0 then
+        (add_n (vloop f c a b (b.length - c) (f a (win b (b.length - c) c))).1
+          (g ((vloop f c a b (b.length - c) (f a (win b (b.length - c) c))).2.1.drop c)
+             (vloop f c a b (b.length - c) (f a (win b (b.length - c) c))).2.2
+             (win b 0 (vloop f c a b (b.length - c) (f a (win b (b.length - c) c))).2.2))).1
+      else (vloop f c a b (b.length - c) (f a (win b (b.length - c) c))).1) rn a b := by
+  have hwl : (win b (b.length - c) c).length = c := win_length b _ _ (by omega)
+  have hwe : win b (b.length - c) c = b.drop (b.length - c) := by
+    rw [win]; apply List.take_of_length_le; rw [List.length_drop]; omega
+  have h0 := hf a (win b (b.length - c) c) ha (win_limbs hb _ _) hwl (by omega)
+  rw [hwe] at h0
+  have H := vloop_spec f c rn a b ha hb hB hal hf (b.length - c) a (f a (win b (b.length - c) c)) (by omega)
+    (by congr 1; omega) (by rw [hwe]; exact h0)
+  generalize vloop f c a b (b.length - c) (f a (win b (b.length - c) c)) = st at H
+  obtain ⟨s1, s2, s3, s4⟩ := H
+  split
+  · rename_i hne
+    have hlt : st.2.2 < c := by rcases s2 with h | h <;> omega
+    have hwt : win b 0 st.2.2 = b.take st.2.2 := by simp [win]
+    have htl : (b.take st.2.2).length = st.2.2 := by rw [List.length_take]; omega
+    have hgs := hg (st.2.1.drop c) (b.take st.2.2) (by rw [s3]; exact Limbs_drop ha _) (Limbs_take hb _)
+      (by omega) (by omega) (by omega) (by rw [s3, List.length_drop]; omega)
+    rw [htl] at hgs
+    obtain ⟨tv, tl, tn⟩ := hgs
+    obtain ⟨rv, rl, rn'⟩ := s4
+    have hdl : (b.drop st.2.2).length = b.length - st.2.2 := List.length_drop
+    have := vcomb a (b.take st.2.2) (b.drop st.2.2) st.1 (g (st.2.1.drop c) st.2.2 (b.take st.2.2)) rn ha
+      (Limbs_take hb _) (Limbs_drop hb _) (by rw [htl, hdl]; omega) rv rl rn' (by rw [tv, hdl, s3]) tl tn
+    rw [List.take_append_drop] at this
+    rw [hwt]; exact this
+  · rename_i hne
+    have : st.2.2 = 0 := by omega
+    rw [this] at s4
+    simpa using s4
+
 end Mpir.MulMid
